@@ -330,7 +330,7 @@ def site_structured():
     return out
 
 
-HOLDERS = ["Aaa", "Mid", "Zzz", "Box", "Audit", "Notification"]
+HOLDERS = ["Aaa", "Mid", "Zzz", "Bin", "Audit", "Notification"]      # (not `Box`: a schema of that name shadows std Box in the emitted file — C09)
 FIELDS = ["a", "mid", "z", "items", "target_kind"]
 
 
